@@ -117,7 +117,13 @@ func stylingOp(r *run.Rng, o *Opts) rec.Op {
 		return rec.Op{K: rec.KSetNSel, Sel: uint8(r.Pick(0, 1, 62, 63, r.Intn(64), r.Intn(64), r.Intn(256), 64+63, 128, 255))}
 	case 2, 3, 4, 5:
 		adj, incr := adjIncr()
-		return rec.Op{K: rec.KSetCReg, Adj: adj, Incr: incr, Col: Color(r)}
+		col := Color(r)
+		if o.Palette != nil && r.Chance(1, 6) {
+			// a direct colour that happens to equal an entry of the suggested palette
+			// is still a direct colour (it does not follow a palette override)
+			col = ivg.RGBAColor(o.Palette[r.Intn(64)])
+		}
+		return rec.Op{K: rec.KSetCReg, Adj: adj, Incr: incr, Col: col}
 	case 6, 7, 8:
 		adj, incr := adjIncr()
 		return rec.Op{K: rec.KSetNReg, Adj: adj, Incr: incr, F: [6]float32{o.RegNum(r)}}
